@@ -163,6 +163,10 @@ class IVFCLevel4Reader(RawIOBase):
     def write(self, data: bytes) -> int:
         # any buffer is written byte by byte, like an ordinary file does: a view of wider items is not measured in items
         data = bytes(data)
+        # noinspection PyProtectedMember
+        if not self._tree._fp.writable():
+            # also for a write that would store nothing, like an ordinary file opened read-only
+            raise IVFCReadOnlyError('IVFC was opened on a read-only file')
         if self._seek + len(data) > self._lv4.size:
             data = data[:max(self._lv4.size - self._seek, 0)]
         if not data:
